@@ -39,6 +39,19 @@ def _apply(variant, dst) -> str:
                 if f.endswith(".py"):
                     n += ar.rename_file(os.path.join(root, f))
         return "ok" if n > 1000 else "stale"
+    if variant.get("hoist"):
+        # call arguments moved into fresh temporaries throughout the package (tools/hoist_temps.py): behaviour preserving
+        import importlib.util
+        spec = importlib.util.spec_from_file_location("hoist_temps", os.path.join(core.VERIF, "tools", "hoist_temps.py"))
+        ht = importlib.util.module_from_spec(spec)
+        spec.loader.exec_module(ht)
+        n = 0
+        for root, _d, files in os.walk(os.path.join(dst, core.PKG)):
+            for f in files:
+                if f.endswith(".py"):
+                    for k in range(2):
+                        n += ht.hoist_file(os.path.join(root, f), k)
+        return "ok" if n > 50 else "stale"
     if "seed" in variant:
         pf = os.path.join(core.VERIF, "seeded", variant["seed"], "patch.diff")
         r = subprocess.run(["patch", "-p1", "-s", "-f", "--no-backup-if-mismatch", "-i", pf], cwd=dst, capture_output=True, text=True)
@@ -228,6 +241,7 @@ def run(prop: str, subset=None) -> Dict:
         vs += computed_variants(prop)
         # the whole package with every local variable renamed: no verdict may depend on how a local is called
         vs.append({"id": f"{prop}-auto-alpha", "kind": "preserve", "alpha": True, "file": "(all)", "rule": None})
+        vs.append({"id": f"{prop}-auto-hoist", "kind": "preserve", "hoist": True, "file": "(all)", "rule": None})
     if not vs:
         return {"variants": 0, "results": [], "ok": True, "problems": []}
     from multiprocessing import Pool
